@@ -2,6 +2,7 @@ package sym
 
 import (
 	"go/token"
+	"strings"
 
 	"golang.org/x/tools/go/ssa"
 )
@@ -96,6 +97,74 @@ func (p *Program) installDeepCopy() {
 		}
 		return Iface{}
 	}
+	// encoding/json as an identity blob whose strings went through UTF-8 coercion (what
+	// distinguishes it from gob for the data this code stores); exported fields only, as for gob
+	in["encoding/json.NewEncoder"] = func(fr *frame, a []Value) Value {
+		var cell Value = Opaque{kind: "jsonenc", v: a[0]}
+		return &cell
+	}
+	in["(*encoding/json.Encoder).Encode"] = func(fr *frame, a []Value) Value {
+		m := fr.m
+		enc := (*a[0].(*Value)).(Opaque)
+		w := enc.v.(Iface)
+		it := a[1].(Iface)
+		if it.t == nil {
+			it = Iface{}
+		}
+		blob := sanitizeUTF8(deepCopy(it, map[*Value]*Value{}))
+		m.gobBlobs = append(m.gobBlobs, blob)
+		id := len(m.gobBlobs) - 1
+		data := MkStr("JSN1" + string([]byte{byte(id >> 8), byte(id)}))
+		m.noteOnce("model: encoding/json = identity blob with invalid UTF-8 in strings replaced by U+FFFD")
+		r, ok := m.callMethod(fr, w, "Write", strToByteSlice(data))
+		if !ok {
+			unsupportedf("json encoder: writer %v has no Write", w.t)
+		}
+		if t, ok := r.(Tuple); ok {
+			if e, ok := t[1].(Iface); ok && e.t != nil {
+				return e
+			}
+		}
+		return Iface{}
+	}
+	in["encoding/json.NewDecoder"] = func(fr *frame, a []Value) Value {
+		var cell Value = Opaque{kind: "jsondec", v: a[0]}
+		return &cell
+	}
+	in["(*encoding/json.Decoder).Decode"] = func(fr *frame, a []Value) Value {
+		m := fr.m
+		dec := (*a[0].(*Value)).(Opaque)
+		r := dec.v.(Iface)
+		buf := m.makeSlice(byteType, 16, 16)
+		res, ok := m.callMethod(fr, r, "Read", buf)
+		if !ok {
+			unsupportedf("json decoder: reader %v has no Read", r.t)
+		}
+		n := m.concreteInt(res.(Tuple)[0], "json read length")
+		if n == 0 {
+			return m.ioEOF()
+		}
+		bs, conc := termsConcrete(sliceTerms(Slice{a: buf.a, off: 0, len: n, cap: n}))
+		if !conc {
+			unsupportedf("json decode of symbolic bytes")
+		}
+		if n != 6 || string(bs[:4]) != "JSN1" {
+			return m.mkError("invalid character looking for beginning of value (model: not a JSON blob)")
+		}
+		id := int(bs[4])<<8 | int(bs[5])
+		if id >= len(m.gobBlobs) {
+			return m.mkError("json: unknown blob (model)")
+		}
+		src := deepCopy(m.gobBlobs[id], map[*Value]*Value{}).(Iface)
+		dst := a[1].(Iface)
+		dp, ok1 := dst.v.(*Value)
+		sp, ok2 := src.v.(*Value)
+		if !ok1 || !ok2 || dp == nil || sp == nil {
+			return m.mkError("json: cannot unmarshal into the given value (model)")
+		}
+		*dp = *sp
+		return Iface{}
+	}
 	in["encoding/gob.NewDecoder"] = func(fr *frame, a []Value) Value {
 		var cell Value = Opaque{kind: "gobdec", v: a[0]}
 		return &cell
@@ -134,6 +203,66 @@ func (p *Program) installDeepCopy() {
 		*dp = *sp
 		return Iface{}
 	}
+}
+
+// sanitizeUTF8 rewrites every string of a (deep-copied) value the way encoding/json does when
+// it encodes: invalid UTF-8 is replaced by U+FFFD. Strings with symbolic bytes are unsupported.
+func sanitizeUTF8(v Value) Value {
+	switch x := v.(type) {
+	case Str:
+		if !x.IsConcrete() {
+			unsupportedf("encoding/json of a string with symbolic bytes")
+		}
+		return MkStr(strings.ToValidUTF8(x.Concrete(), "\uFFFD"))
+	case *Value:
+		if x != nil {
+			*x = sanitizeUTF8(*x)
+		}
+		return x
+	case Struct:
+		for i := range x {
+			x[i] = sanitizeUTF8(x[i])
+		}
+		return x
+	case Array:
+		for i := range x {
+			x[i] = sanitizeUTF8(x[i])
+		}
+		return x
+	case Slice:
+		for i := 0; i < x.len; i++ {
+			*x.At(i) = sanitizeUTF8(*x.At(i))
+		}
+		return x
+	case *Map:
+		if x != nil {
+			// keys that become equal collapse into one entry (the later one wins, as when
+			// decoding a JSON object with a repeated key)
+			var keys, vals []Value
+			for i := range x.keys {
+				k := sanitizeUTF8(x.keys[i])
+				val := sanitizeUTF8(x.vals[i])
+				dup := -1
+				for j := range keys {
+					if e := valueEq(keys[j], k); e.IsConst() && e.val == 1 {
+						dup = j
+					}
+				}
+				if dup >= 0 {
+					vals[dup] = val
+				} else {
+					keys = append(keys, k)
+					vals = append(vals, val)
+				}
+			}
+			x.keys, x.vals = keys, vals
+			x.reindex()
+		}
+		return x
+	case Iface:
+		return Iface{t: x.t, v: sanitizeUTF8(x.v)}
+	}
+	return v
 }
 
 var byteType = typesByte()
